@@ -144,3 +144,16 @@ Proof. exact visible_here. Qed.
 
 Theorem C20_sha256_hidden_refuted : visible_after_integrity_form false TIntegritySha256 = false.
 Proof. exact sha256_hidden_otherwise. Qed.
+
+(* "its response is matched by transaction id": the id is in the table before the first transmission is handed to the transport, so a
+   response that arrives while that send is still in progress (a transport whose send future yields) finds the request *)
+Theorem C20_registered_before_send_guard : stun_tsx_registered_before_send = true.
+Proof. reflexivity. Qed.
+
+Theorem C20_response_matched_from_the_start : stun_tsx_registered_before_send = true ->
+  forall first_send_done resp_at, response_matched first_send_done resp_at = true.
+Proof. exact response_matched_here. Qed.
+
+Theorem C20_registered_after_send_refuted : forall first_send_done resp_at, (resp_at < first_send_done)%N ->
+  response_matched_form false first_send_done resp_at = false.
+Proof. exact response_during_send_unmatched. Qed.
